@@ -1,0 +1,16 @@
+//go:build !verif
+
+// No-op counterparts of the trace hooks in verif_trace.go (build tag "verif").
+
+package dig
+
+import "reflect"
+
+func verifTraceNew(*Container)                                          {}
+func verifTraceScope(_, _ *Scope)                                       {}
+func verifTraceProvide(_, _ *Scope, _ *constructorNode, _ error)        {}
+func verifTraceDecorate(*Scope, *decoratorNode)                         {}
+func verifTraceInvoke(*Scope, paramList) func(*error)                   { return verifNoEnd }
+func verifNoEnd(*error)                                                 {}
+func verifTraceEnter(containerStore, string, interface{})               {}
+func verifTraceCommit(string, interface{}, resultList, []reflect.Value) {}
